@@ -872,7 +872,13 @@ class Engine:
         if k == "ref":
             if a["raw"]:
                 pass
-            return self.resolve(st, frame, body, a["place"])
+            pl = a["place"]
+            if len(pl.proj) == 1 and pl.proj[0][0] == "deref":
+                # reborrow `&*x` of a literal that is modelled by value (string / byte-string constants)
+                cur = st.mem.get(("L", frame, pl.local))
+                if isinstance(cur, VStr) or (isinstance(cur, VOpaque) and "literal" in str(cur.tag)):
+                    return cur
+            return self.resolve(st, frame, body, pl)
         if k == "binop":
             l = self.operand(st, frame, body, a["l"])
             r = self.operand(st, frame, body, a["r"])
